@@ -82,8 +82,39 @@ def asCM (j : Json) : R CM := do
 def xerrStr : XErr → String
   | .notInterferometer => "not-interferometer" | .mix => "mix" | .notIdentical => "not-identical"
 
+def asGArg (j : Json) : R GArg := do
+  match j.getStr? with
+  | .ok s => if s.startsWith "sym:" then pure (.sym (s.drop 4).toString) else pure (.expr s)
+  | .error _ => pure (.num (← asRat j))
+
+def jLCmd : LCmd → Json
+  | .gate c r => jarr [Json.str c, natList r]
+  | .loss (.num q) r => jarr [Json.str "LossChannel", natList r, jrat q]
+  | .loss .param r => jarr [Json.str "LossChannel", natList r, Json.str "param"]
+
 def handler (op : String) (j : Json) : Option (R Json) :=
   match op with
+  | "hw.addLoss" => some do
+    let circ ← (← getArr j "circ").mapM fun e => do
+      let a ← e.getArr?
+      match a.toList with
+      | [c, r] => pure (← c.getStr?, ← asNatList r)
+      | _ => throw "circ entry"
+    match addLoss (← asRat (← j.getObjVal? "glob")) (← asRatList (← j.getObjVal? "loops")) 0 circ with
+    | none => pure Json.null
+    | some out => pure <| jarr (out.map jLCmd)
+  | "hw.compatible" => some do
+    let len ← getNat j "len"
+    let loops ← (← getArr j "loops").mapM fun e => do
+      let a ← e.getArr?
+      match a.toList with
+      | [o, d, ph] => do pure (← asRat o, ← d.getNat?, ← asRatList ph)
+      | _ => throw "loop: expected [offset, delay, phis]"
+    pure <| jarr ((makeCompatLoops len true (fun _ => 0) loops).map fun l => jarr (l.map jrat))
+  | "hw.paramRules" => some do
+    let l ← (← getArr j "layout").mapM asGArg
+    let p ← (← getArr j "prog").mapM asGArg
+    pure <| Json.mkObj [("clash", Json.bool (hardCodedClash l p)), ("fixed", Json.bool (fixedValuesMatch l p))]
   | "hw.close" => some do
     let ps ← (← getArr j "pairs").mapM fun e => do
       let a ← e.getArr?
